@@ -13,4 +13,25 @@ theorem chain_candidates_spec (pairs : List Nat) (idx : List Edge) (v : Nat) (fw
     pairs[k]? = some i ∧ ∃ e, idx[i]? = some e ∧ (if fwd then e.1 else e.2) = v := by
   rw [C12T.chain_candidates_eq pairs idx v fwd hin] at h
   exact C13.chainCandidate_spec h
+/-! ### the key under which `unique_edges` counts an undirected edge (regenerated `edge_key`, and its use) -/
+
+/-- the key is the pair (smaller id, larger id): the same for both directions of an edge, and DIFFERENT for different
+    undirected edges — for vertex ids of any size (nothing is packed into fewer bits) -/
+theorem edge_key_identifies_the_undirected_edge (a b c d : Nat) :
+    (GenRs.edge_key_lo a b = GenRs.edge_key_lo b a ∧ GenRs.edge_key_hi a b = GenRs.edge_key_hi b a) ∧
+    GenRs.edge_key_lo a b ≤ GenRs.edge_key_hi a b ∧
+    ((GenRs.edge_key_lo a b = GenRs.edge_key_lo c d ∧ GenRs.edge_key_hi a b = GenRs.edge_key_hi c d) ↔
+      ((a = c ∧ b = d) ∨ (a = d ∧ b = c))) := by
+  unfold GenRs.edge_key_lo GenRs.edge_key_hi
+  have e1 : ∀ x y : Nat, Nat.min x y = min x y := fun _ _ => rfl
+  have e2 : ∀ x y : Nat, Nat.max x y = max x y := fun _ _ => rfl
+  simp only [e1, e2]
+  refine ⟨⟨by omega, by omega⟩, by omega, ?_⟩
+  constructor
+  · intro h; omega
+  · intro h; omega
+
+/-- and that key, unchanged, is what the counting map of `unique_edges` is indexed by -/
+theorem unique_edges_counts_under_edge_key (k : Nat) : GenRs.unique_edges_key k = k := rfl
+
 end C12U
